@@ -23,7 +23,64 @@ def record_all(ck, thorough):
                        "without RegExp(), js.Parse x 4 Options), the caller continuing after errors and after the end; harvest: string literals "
                        "of the repository's *_test.go files plus seeded truncations/substitutions/insertions; non-trivial = distinct "
                        "(entry point, input) that produced at least two non-error reports. ")
-    return [ck.path("classes.ndjson"), ck.path("harvest.ndjson")]
+    paths = [ck.path("classes.ndjson"), ck.path("harvest.ndjson")]
+    paths += generator_documents(ck, thorough)
+    return paths
+
+
+# (suite, spec dir, module, quick cfg, thorough cfg, extra flags of `<suite> inputs`)
+GENERATORS = [
+    ("csstok", "css", "CssTokensGen", "Gen_seps.cfg", "Gen_pairs.cfg", ["-every", "3"]),
+    ("jstok", "js", "JsTokensGen", None, "Gen_seps.cfg", ["-every", "3"]),      # slow generator: thorough tier only
+    ("htmldoc", "html", "HtmlDoc", "Gen_html_quick.cfg", "Gen_html_thorough.cfg", []),
+    ("htmldoc", "html", "HtmlDoc", "Gen_tmpl_quick.cfg", "Gen_tmpl_thorough.cfg", []),
+    ("xmldoc", "xml", "XmlDoc", "Gen_quick.cfg", "Gen_thorough.cfg", []),
+    ("jsgram", "js", "JsGrammar", "G_stmt1.cfg", "G_stmt2.cfg", []),
+]
+
+
+def generator_documents(ck, thorough):
+    """Documents of the token / document grammar generators (with their seeded truncations and substitutions) through every
+    entry point of their family.  A generator that is not there (or fails) is skipped and named in the evidence notes."""
+    out = []
+    import vcheck
+    for k, (suite, sdir, module, qcfg, tcfg, flags) in enumerate(GENERATORS):
+        cfg = tcfg if thorough else qcfg
+        if cfg is None:
+            continue
+        if not os.path.exists(os.path.join(vcheck.SPEC, sdir, module + ".tla")) or not os.path.exists(os.path.join(vcheck.SPEC, sdir, cfg)):
+            ck.notes.append("generator %s/%s %s not available: skipped" % (sdir, module, cfg))
+            continue
+        cases = ck.path("gen-%d.ndjson" % k)
+        try:
+            ck.tlc(sdir, module, cfg, label="generator documents for the protocol checks: %s %s" % (module, cfg), env={"VERIF_CASES": cases, "VERIF_SEED": ck.seed},
+                   timeout=(1200 if thorough else 90), count=False, lib_dirs=(vcheck.COMMON,) + tuple(os.path.join(vcheck.SPEC, d) for d in ("cursor",)))
+            inp = ck.path("gen-%d-inputs.ndjson" % k)
+            s = ck.drive(suite, "inputs", "-cases", cases, "-out", inp, "-seed", ck.seed, *flags, timeout=1200)
+            # cap the number of documents (deterministic stride) and give documents without a language their suite's default
+            lines = open(inp).read().split("\n")
+            lines = [x for x in lines if x.strip()]
+            cap = 60000 if thorough else 9000
+            stride = max(1, len(lines) // cap)
+            with open(inp, "w") as f:
+                for x in lines[::stride]:
+                    if '"lang"' not in x:
+                        o = json.loads(x)
+                        o["lang"] = {"jsgram": "js.parse"}.get(suite, "")
+                        x = json.dumps(o, separators=(",", ":"))
+                    f.write(x + "\n")
+            tp = ck.path("gen-%d-trace.ndjson" % k)
+            s2 = ck.drive("lexers", "file", "-in", inp, "-out", tp, "-family", timeout=3000)
+        except vcheck.Fatal as ex:
+            ck.notes.append("generator %s %s skipped: %s" % (module, cfg, str(ex)[:200]))
+            continue
+        ck.cov["evaluations"] += s2["executions"]
+        ck.cov["distinct_nontrivial"] += s2["distinct_nontrivial"]
+        ck.cov["samples"] += (s2.get("samples") or [])[:1]
+        out.append(tp)
+    ck.cov["rule"] += ("generators: the documents of the token/document grammar suites (CSS and JS token sequences, HTML and XML documents, JS programs) with "
+                       "their seeded truncations and byte substitutions, through every entry point of the family. ")
+    return out
 
 
 def input_of(trace):
